@@ -343,3 +343,29 @@ M('c01-mean-wrong-size', 'C01', 'act_one.py', "        k = Y[i].shape[1]\n      
 M('c01-sum-normed', 'C01', 'act_one.py', "    return mean(Y, norm=False)", "    return mean(Y)")
 T('c01-twin-mean-mult', 'C01', 'act_one.py', "            p = np.ones(k) / k if norm else np.ones(k)", "            p = np.ones(k)\n            if norm:\n                p = p / k")
 T('c01-twin-interface-size', 'C01', 'act_one.py', "                phi[k] /= Y[k].shape[1]", "                phi[k] = phi[k] / len(Y[k][0])")
+
+
+# ------------------------------------------------------------------ round d rules
+M('c04-shallow-copy-overwrite', ['C09'], 'transformation.py', None, None,
+  edits=[("    Z = teneva.copy(Y)\n    p = 0\n", "    Z = list(Y)\n    p = 0\n"),
+         ("    R, Q = sp.linalg.rq(G2, mode='economic', check_finite=False)", "    R, Q = sp.linalg.rq(G2, mode='economic', check_finite=False,\n        overwrite_a=True)")])
+T('c04-twin-overwrite-fresh', ['C09', 'C04'], 'transformation.py',
+  "    R, Q = sp.linalg.rq(G2, mode='economic', check_finite=False)", "    R, Q = sp.linalg.rq(np.array(G2), mode='economic', check_finite=False,\n        overwrite_a=True)")
+M('c05-nswp-truthy', ['C05', 'C06'], 'utils.py', "    if info['stop'] is None:\n        if nswp is not None:\n            if info['nswp'] >= nswp:", "    if info['stop'] is None:\n        if nswp:\n            if info['nswp'] >= nswp:")
+T('c05-twin-nswp-flat', ['C05', 'C06', 'C07'], 'utils.py', "    if info['stop'] is None:\n        if nswp is not None:\n            if info['nswp'] >= nswp:\n                info['stop'] = 'nswp'", "    if info['stop'] is None and nswp is not None and info['nswp'] >= nswp:\n        info['stop'] = 'nswp'")
+M('c11-mask-size-empty', ['C11', 'C13'], 'anova.py', "                        if idx.sum() == 0:", "                        if idx.size == 0:")
+T('c13-twin-mask-any', ['C11', 'C13'], 'anova.py', "                        if idx.sum() == 0:\n                            value = 0.\n                        else:\n                            value = np.mean(y_trn[idx]) - self.f0\n                            value = value - self.f1[k1][x1] - self.f1[k2][x2]", "                        if idx.any():\n                            value = np.mean(y_trn[idx]) - self.f0\n                            value -= self.f1[k1][x1] + self.f1[k2][x2]\n                        else:\n                            value = 0.")
+M('c13-pair-term-dedent', 'C13', 'anova.py', "                            value = np.mean(y_trn[idx]) - self.f0\n                            value = value - self.f1[k1][x1] - self.f1[k2][x2]", "                            value = np.mean(y_trn[idx]) - self.f0\n                        value = value - self.f1[k1][x1] - self.f1[k2][x2]")
+M('c13-pair-term-sign', 'C13', 'anova.py', "                            value = value - self.f1[k1][x1] - self.f1[k2][x2]", "                            value = value - self.f1[k1][x1] + self.f1[k2][x2]")
+M('c12-full-int-fill', 'C12', 'func.py', "    y = np.ones(m) * z", "    y = np.full(m, z)")
+M('c19-shift-int-kind', 'C19', 'tensors.py', "    shift = teneva.grid_prep_opt(shift, d)", "    shift = teneva.grid_prep_opt(shift, d, kind=int)")
+M('c20-rank-two-step', ['C20', 'C03'], 'svd.py', "    r = max(1, min(int(r), len(s) - dlen))", "    r = min(int(r), len(s))\n    r = max(1, r - dlen)")
+T('c20-twin-rank-two-step', ['C20', 'C03', 'C02', 'C11'], 'svd.py', "    r = max(1, min(int(r), len(s) - dlen))", "    r = min(int(r), len(s) - dlen)\n    r = max(1, r)")
+M('c18-cdf-unique', 'C18', 'stat.py', "    x = np.array(x, copy=True)\n    x.sort()", "    x = np.unique(x)")
+M('c17-batch-of-one', 'C17', 'grid.py', "    return I_qtt if is_many else I_qtt[0, :]", "    return I_qtt if m > 1 else I_qtt[0, :]")
+M('c15-select-if-pruned', 'C15', 'optima.py', "        ind = np.argsort(norms)[:-(k+1):-1]\n\n        I = I[ind, :]\n        Q = Q[ind, :] if l2r else Q[:, ind]", "        if norms.size > k:\n            ind = np.argsort(norms)[:-(k+1):-1]\n\n            I = I[ind, :]\n            Q = Q[ind, :] if l2r else Q[:, ind]")
+M('c14-unique-restack', 'C14', 'sample.py', "            return sample_square(Y, m, True, seed, 2*m_fact, max_rep-1,\n                float_cf=float_cf)", "            I_add = sample_square(Y, m - I.shape[0], True, rand, 2*m_fact,\n                max_rep-1, float_cf=float_cf)\n            I = np.vstack([I, I_add])")
+T('c14-twin-unique-restack-dedup', 'C14', 'sample.py', "            return sample_square(Y, m, True, seed, 2*m_fact, max_rep-1,\n                float_cf=float_cf)", "            I_add = sample_square(Y, m, True, rand, 2*m_fact,\n                max_rep-1, float_cf=float_cf)\n            I = np.unique(np.vstack([I, I_add]), axis=0)")
+M('c02-tail-by-difference', ['C02'], 'svd.py', "    where = np.where(np.cumsum(ss[::-1]**2) <= e**2)[0]\n    dlen = 0 if len(where) == 0 else int(1 + where[-1])\n    r = max(1, min(int(r), len(s) - dlen))", "    energy = np.cumsum(ss**2)\n    dlen = int(np.count_nonzero(energy[-1] - energy[:-1] <= e**2))\n    r = max(1, min(int(r), len(s) - dlen))")
+M('c15-value-kwargs-derived', 'C15', 'optima.py', "    y2 = teneva.get(Y, i2)", "    y2 = teneva.get(Z, i=i2)")
+T('c15-twin-value-kwargs', 'C15', 'optima.py', "    y2 = teneva.get(Y, i2)", "    y2 = teneva.get(Y, i=i2)")
